@@ -422,7 +422,7 @@ pub fn flex_layout(
                 (space, space)
             }
             Justify::SpaceAround => {
-                let space = unused / children.len();
+                let space = unused / children.len().max(1);
                 (space / 2, space)
             }
         }
